@@ -1,0 +1,16 @@
+//go:build verif
+
+package m
+
+// VerifEntries returns a copy of the routing table entries in table order.
+// Verification hook: only compiled with the "verif" build tag.
+func (rt *RoutingTable) VerifEntries() []RoutingTableEntry {
+	rt.lock.RLock()
+	defer rt.lock.RUnlock()
+
+	out := make([]RoutingTableEntry, 0, len(rt.entries))
+	for _, e := range rt.entries {
+		out = append(out, *e)
+	}
+	return out
+}
